@@ -273,7 +273,9 @@ DECOY_CLASSES = ["line_comment", "block_comment", "doc_comment", "inner_doc", "b
                  # comment and string corner cases
                  "block_stars", "block_star_space_slash", "block_nested_look", "line_trailing_backslash", "doc_block",
                  "no_literal_kv", "after_string_ending_in_backslash", "line_comment_after_string", "block_with_quote",
-                 "line_comment_bare_cr"]
+                 "line_comment_bare_cr",
+                 # identifiers with non-ASCII characters next to a configured name; block comments of several paragraphs
+                 "unicode_prefix_name", "unicode_suffix_name", "unicode_module_path", "block_multi_paragraph"]
 
 
 def decoy_text(cls, marker, rnd, macros, eol):
@@ -317,6 +319,11 @@ def decoy_text(cls, marker, rnd, macros, eol):
         "line_comment_after_string": 'let s = "text"; // %s!("%s comment after a string")' % (name, marker),
         "line_comment_bare_cr": '// note\r    %s!("%s after a bare carriage return inside a line comment");' % (name, marker),
         "block_with_quote": '/* it\'s "quoted %s!("%s in block with quotes") */' % (name, marker),
+        "unicode_prefix_name": '%s%s!("%s non-ASCII letters before the name");' % (rnd.choice(["журнал", "µ", "é", "日本", "ß", "_ü"]), name, marker),
+        "unicode_suffix_name": '%s%s!("%s non-ASCII letters after the name");' % (name, rnd.choice(["é", "ж", "_µ", "日"]), marker),
+        "unicode_module_path": '%s::%s!("%s module path ending in a non-ASCII letter");' % (rnd.choice(["журнал", "modé", mod + "é", "crate::ü"]), name, marker),
+        "block_multi_paragraph": '/* first paragraph%s%s   %s!("%s a");%s%s%s   second paragraph %s::%s!("%s b");%s   %s%s   %s!(k = 1; "%s c");%s */' % (
+            eol, eol, name, marker, eol, "   " + eol if rnd.random() < 0.5 else eol, eol, mod, name, marker, eol, eol, eol, name, marker, eol),
     }
     for k in list(extra):
         # a near-miss that happens to coincide with a configured macro is not a decoy: neutralise it
